@@ -23,7 +23,7 @@ ASSUMPTIONS = [
 ]
 
 POWS = [-2, -1, -0.5, 0, 0.5, 1, 2, 3, 9, 10, 2.5]
-FUNCS = ["exp", "log", "sqrt", "isqrt"] + [f"pow{a}" for a in POWS] + ["unary_sq1", "unary_cos"]
+FUNCS = ["exp", "log", "sqrt", "isqrt"] + [f"pow{a}" for a in POWS] + ["unary_sq1", "unary_cos", "unary_expi"]  # expi(z) = exp(0.5j z): NOT conjugate-symmetric
 ALGS = ["omitted", "Auto", "Eig", "Eigh", "Lanczos_n", "Lanczos_n3", "Arnoldi_n", "Arnoldi_n3"]
 
 
@@ -43,6 +43,8 @@ def scalar_fn(name):
         return lambda x: x**2 + 1
     if name == "unary_cos":
         return np.cos
+    if name == "unary_expi":
+        return lambda x: np.exp(0.5j * np.asarray(x, dtype=np.complex128))
     raise ValueError(name)
 
 
@@ -181,6 +183,8 @@ def apply(fn, A, alg):
         return L.apply_unary(lambda x: x**2 + 1, A, *args)
     if fn == "unary_cos":
         return L.apply_unary(np.cos, A, *args)
+    if fn == "unary_expi":
+        return L.apply_unary(lambda x: np.exp(0.5j * x), A, *args)
     raise ValueError(fn)
 
 
@@ -353,7 +357,7 @@ def cases(tier, seed):
         psd = is_psd_spec(sp)
         sing = "sing" in repr(sp)
         for fn in FUNCS:
-            if sing and fn != "exp" and fn not in ("unary_sq1", "unary_cos", "pow2", "pow3", "pow1", "pow0"):
+            if sing and fn != "exp" and fn not in ("unary_sq1", "unary_cos", "unary_expi", "pow2", "pow3", "pow1", "pow0"):
                 continue
             for a in ALGS:
                 if a in ("Eigh", "Lanczos_n", "Lanczos_n3") and not psd:
@@ -391,7 +395,7 @@ def describe(tier, seed):
         "bound": "operators with controlled spectrum: PSD-declared Q diag(l) Q^H, general V diag(l) V^-1 (real with complex-conjugate pairs, "
                  "complex), singular PSD (exp), Diagonal real/complex for n in " + ("{1,2,3,5}" if tier == "quick" else "{1,...,6,8,12,20}")
                  + "; Identity, ScalarMul, and every structural rule (BlockDiag with multiplicities, Transpose / Adjoint of a generic operator, "
-                   "KronSum, Kronecker, 2-3 factors) nested to depth 2; 1001 x 1001 identity-plus-rank-3 operators (PSD / general) beyond the automatic switch; x 17 functions (exp, log, sqrt, isqrt, 11 powers, x^2+1, cos) x 8 "
+                   "KronSum, Kronecker, 2-3 factors) nested to depth 2; 1001 x 1001 identity-plus-rank-3 operators (PSD / general) beyond the automatic switch; x 18 functions (exp, log, sqrt, isqrt, 11 powers, x^2+1, cos, exp(0.5j x)) x 8 "
                    "algorithm settings x operands {1-D, 2 columns, complex 1-D, a zero column, a heterogeneous batch, float32 / complex64 and integer operands}",
         "alphabet": _DESC,
         "oracle": "f(A) x independent of the dtype an exactly representable operand arrives in (1e-10); f(A) x from the eigendecomposition of the reference (scipy cross-check in prepare()); sqrt twice = A; pow(-1) solves; integer "
